@@ -14,6 +14,7 @@ import (
 )
 
 const defaultMaxRandValue = 10
+const maxRandStringLen = 1 << 24
 
 func init() {
 	rand.New(rand.NewSource(time.Now().UnixNano()))
@@ -97,7 +98,10 @@ func randInt(f, t int64) (string, error) {
 		t = defaultMaxRandValue
 	}
 	if t == f {
-		f = t + defaultMaxRandValue
+		t = f + defaultMaxRandValue
+	}
+	if t-f <= 0 {
+		return "", fmt.Errorf("randInt range from %d to %d is too large", f, t)
 	}
 	n := rand.Int63n(t - f)
 	n += f
@@ -124,6 +128,9 @@ func randString(cnt any, letters string) (string, error) {
 	}
 	if n == 0 {
 		n = 1
+	}
+	if n < 0 || n > maxRandStringLen {
+		return "", fmt.Errorf("randString length should be from 0 to %d, but got %d", maxRandStringLen, n)
 	}
 	return str.RandStringRunes(n, letters), nil
 }
